@@ -35,7 +35,7 @@ import (
 	"verif/engine/vk"
 )
 
-const memCapBytes = 6 << 30 // RLIMIT_AS of a worker
+const memCapBytes = 12 << 30 // RLIMIT_AS of a worker (backstop; the parent enforces a 3 GiB RSS cap)
 
 type env struct {
 	ctx  sdk.Context
@@ -277,7 +277,7 @@ func workerMain() {
 		fmt.Println("E cannot set RLIMIT_AS:", err)
 		os.Exit(3)
 	}
-	debug.SetMemoryLimit(int64(capBytes / 2))
+	// no GOMEMLIMIT: a soft limit near the live heap makes the GC thrash and turns memory growth into CPU time
 	vm.VerifRecoverHook = func(r any) { lastRaw = &rawPanic{val: r, stack: string(debug.Stack())} }
 	e := setupEnv()
 	if pf := os.Getenv("C11_PROF"); pf != "" {
@@ -286,6 +286,21 @@ func workerMain() {
 		defer pprof.StopCPUProfile()
 	}
 	g := newGen(os.Getenv("C11_TIER") == "thorough")
+	if sf := os.Getenv("C11_SRCFILE"); sf != "" { // ad-hoc replay of one source file
+		b, _ := os.ReadFile(sf)
+		kind := kindRun
+		if strings.HasPrefix(string(b), "package pkg") {
+			kind = kindAddPkg
+		}
+		gas := int64(20_000_000)
+		if g, err := strconv.ParseInt(os.Getenv("C11_GAS"), 10, 64); err == nil {
+			gas = g
+		}
+		debugOn = true
+		res := e.runCase(Case{ID: sf, Kind: kind, Src: string(b), Gas: gas})
+		fmt.Printf("class=%s msg=%q site=%s\n", className[res.class], res.msg, res.site)
+		os.Exit(0)
+	}
 	out := bufio.NewWriterSize(os.Stdout, 1<<16)
 	fmt.Fprintln(out, "READY")
 	out.Flush()
